@@ -250,3 +250,23 @@ func TestZZFixedD35RenameOverDirLinks(t *testing.T) {
 		t.Fatalf("directory a is still live after rmdir (status %d): its link count was never lowered when y was replaced", g.Status)
 	}
 }
+
+// D-36: a commit the journal refuses (transaction larger than the log) ran
+// PostCommit instead of PostAbort: the blocks the transaction had allocated
+// stayed allocated in memory until the next restart.
+func TestZZFixedD36FailedCommitGivesBack(t *testing.T) {
+	c := MkNfsClient(100 * 1000)
+	defer c.Shutdown()
+	root := fh.MkRootFh3()
+	f := c.CreateOp(root, "big").Resok.Obj.Handle
+	before := c.srv.fsstate.Balloc.NumFree()
+	data := make([]byte, 510*4096)
+	r := c.WriteOp(f, 0, data, nfstypes.FILE_SYNC)
+	if r.Status == 0 {
+		t.Skipf("the oversized WRITE was accepted; nothing to check")
+	}
+	after := c.srv.fsstate.Balloc.NumFree()
+	if after != before {
+		t.Fatalf("failed WRITE (status %d) consumed %d blocks of the in-memory allocator", r.Status, before-after)
+	}
+}
